@@ -280,6 +280,47 @@ def cellVals? : List Cell → Option (List Val)
     | some v, some vs => some (v :: vs)
     | _, _ => none
 
+/-! ## scalars and the general path: `BaseType._set_data` turns a value into `np.array(value)` -/
+
+/-- the values an item of dtype char `c` can hold (floats: every bit pattern of the width) -/
+def NChar.holds (c : NChar) (v : Int) : Bool :=
+  match c.kind with
+  | .int => decide (-((2 : Int) ^ (8 * c.size - 1)) ≤ v ∧ v < (2 : Int) ^ (8 * c.size - 1))
+  | .uint => decide (0 ≤ v ∧ v < (2 : Int) ^ (8 * c.size))
+  | .float => decide (0 ≤ v ∧ v < (2 : Int) ^ (8 * c.size))
+  | _ => false
+
+/-- an `S<n>` item: the bytes, NUL-padded to `n` -/
+def sItem (n : Nat) (b : Bytes) : Bytes := b ++ zeros (n - b.length)
+
+/-- a `U<n>` item: one 4-byte code unit per code point, NUL-padded to `n` -/
+def uItem (big : Bool) (n : Nat) (cps : List Nat) : Bytes :=
+  ((cps ++ List.replicate (n - cps.length) 0).map fun (cp : Nat) => itemBytes big 4 (cp : Int)).flatten
+
+/-- `np.array(x)` of a value `x` of a record (what `BaseType._set_data` makes of it when the record is assigned to
+    the template structure on the general path): a 0-d array of the value's own dtype — `S<max(len,1)>` for bytes,
+    `U<max(len,1)>` for str; `big`: the byte order a 0-d array cell may have -/
+def Cell.toArr (big : Bool) : Cell → NpArr
+  | .num c v => storeC c big [] [v]
+  | .ustr cps => ⟨.U, big, max cps.length 1, [], [], 0, uItem big (max cps.length 1) cps⟩
+  | .bstr b => ⟨.S, big, max b.length 1, [], [], 0, sItem (max b.length 1) b⟩
+
+/-- the cell is a possible one: a number held in dtype char `c` is a value of that dtype -/
+def Cell.ok : Cell → Bool
+  | .num c v => c.holds v
+  | _ => true
+
+/-- the general path of `_sequencetype`, one record: `struct.data = record` (every value becomes `np.array(value)`:
+    `BaseType._set_data`), then `dods(struct)`, i.e. `_basetype` on each 0-d array; the flag is the byte order of a
+    cell that is a 0-d array -/
+def encCellsGeneral : List (Bool × Cell) → Except SrcErr Bytes
+  | [] => .ok []
+  | c :: cs =>
+    match encArr (c.2.toArr c.1), encCellsGeneral cs with
+    | .ok x, .ok y => .ok (x ++ y)
+    | .error e, _ => .error e
+    | _, .error e => .error e
+
 /-! ## a dataset whose leaves are held as arrays -/
 
 /-- a served variable: a BaseType holding an array, a container of such, or a member described at value level
